@@ -175,6 +175,7 @@ def judge(chk, pid, fs, kf_ids):
         # kind in the blamed file that takes part in the conflict (a type declared twice in ONE file conflicts on both lines)
         conflicts = {(c[0], c[1], c[2]) for c in fs.ideal["conflicts"]}
         names = [f["name"] for f in fs.files]
+        model_file = any(f["abs"]["header"] == "" for f in fs.files)       # (D12: a model file is merged like a module - judged by C07)
         if len(set(names)) < len(names):
             # two list entries under one name: "the file containing the conflict" is not determined by a file name (DESIGN II.6b);
             # such lists are judged by C07 / C12 only
@@ -183,6 +184,12 @@ def judge(chk, pid, fs, kf_ids):
         for o in obs["outcomes"]:
             for e in o["errs"]:
                 k = (e["kind"], e["name"], e["file"])
+                if e["kind"] in ("duptype", "dupcond", "noext", "duprel") and k not in conflicts and not model_file \
+                        and any((c[0], c[1]) == (e["kind"], e["name"]) for c in conflicts):
+                    # "names the file containing the conflict": the conflict exists, in another file than the one named
+                    chk.add("merge_positions_checked")
+                    chk.violation("%s %s is reported in %s; the conflicting declaration stands in %s" % (
+                        e["kind"], e["name"], e["file"], sorted(c[2] for c in conflicts if (c[0], c[1]) == (e["kind"], e["name"]))), dict(replay, error=e))
                 if e["kind"] in ("duptype", "dupcond", "noext", "duprel") and k in conflicts:
                     chk.add("merge_positions_checked")
                     f = next(f for f in fs.files if f["name"] == e["file"])
@@ -260,10 +267,10 @@ def run(pid, tier):
 def run_into(chk, pid, binary, sc, tier):
     if True:
         kf = replay_findings(pid, binary, sc)
-        pool = "<<1,2,3,4,5,6,7,8,9,10,11,12,13,14,15,16,17,18,19,20,21>>"
+        pool = "<<1,2,3,4,5,6,7,8,9,10,11,12,13,14,15,16,17,18,19,20,21,22,23>>"
         maxfiles = 3 if tier == "quick" else 4
         if tier == "thorough":
-            pool = "<<1,2,3,4,5,6,7,8,10,11,12,13,15,16,18,19,20>>"
+            pool = "<<1,2,3,4,5,6,7,8,10,11,12,13,15,16,18,19,20,22,23>>"
         cfg = CFG % {"setat": "MCSetAt", "numsets": "MCNumSets", "devs": DEVS_CURRENT, "extra": "  MaxFiles = %d\n  PoolSeq <- PoolSeqV" % maxfiles}
         res = run_tlc("MergeMC", cfg, sc, cache=True, timeout=3000, defs="PoolSeqV == " + pool)
         if res.violated:
